@@ -33,7 +33,7 @@ theorem hist_mono {locked slocked ser} (ls : List Label) {s s' : Sys} {v : Vec}
       refine ih ?_ h
       obtain ⟨_, hc⟩ := step_cases h1
       rcases hc with ⟨_, _, _, e⟩ | ⟨c, _, _, e⟩ | ⟨b, _, _, e⟩ | ⟨_, e⟩ | ⟨j, _, e⟩ |
-        ⟨j, _, e⟩ | ⟨_, e⟩
+        ⟨j, _, e⟩ | ⟨_, e⟩ | ⟨j, _, _, e⟩
       · subst e; exact hv
       · subst e; exact hv
       · subst e; cases b <;> simp [spawn, hv]
@@ -50,6 +50,7 @@ theorem hist_mono {locked slocked ser} (ls : List Label) {s s' : Sys} {v : Vec}
           split at e
           all_goals (first | (cases e; done) | (injection e with e; subst e; rfl))
         rw [this]; exact hv
+      · subst e; exact hv
       · subst e; exact hv
     · cases h
 
@@ -189,13 +190,15 @@ theorem C15_converge_after_save (ser : Vec → Content) (init : Option Content) 
   · next s2 hs2 =>
     have hc2 : Conv ser s2 := by
       obtain ⟨_, hc⟩ := step_cases hs2
-      rcases hc with ⟨e, _⟩ | ⟨c, e, _⟩ | ⟨b, e, _, e'⟩ | ⟨_, e'⟩ | ⟨j, e, _⟩ | ⟨j, e, _⟩ | ⟨e, _⟩
+      rcases hc with ⟨e, _⟩ | ⟨c, e, _⟩ | ⟨b, e, _, e'⟩ | ⟨_, e'⟩ | ⟨j, e, _⟩ | ⟨j, e, _⟩ | ⟨e, _⟩ |
+        ⟨j, e, _⟩
       · rcases hl with hl | hl <;> rw [hl] at e <;> cases e
       · rcases hl with hl | hl <;> rw [hl] at e <;> cases e
       · rcases hl with hl | hl <;> rw [hl] at e
         · cases e
         · injection e with e; subst e; subst e'; exact conv_spawn
       · subst e'; exact conv_spawn
+      · rcases hl with hl | hl <;> rw [hl] at e <;> cases e
       · rcases hl with hl | hl <;> rw [hl] at e <;> cases e
       · rcases hl with hl | hl <;> rw [hl] at e <;> cases e
       · rcases hl with hl | hl <;> rw [hl] at e <;> cases e
@@ -221,6 +224,20 @@ theorem C15_converge_after_save (ser : Vec → Content) (init : Option Content) 
 theorem C15_save_before_change_counterexample :
     ∃ s, exec true true demoSer ([.spawn] ++ List.replicate 13 (.adv 0) ++ changeL [0, 1])
           (initSys none [0, 0]) = some s ∧
+      quiescentB s = true ∧ s.chg = false ∧ s.mem = [1, 1] ∧ s.target = some (demoSer [0, 0]) ∧
+      s.target ≠ some (demoSer s.mem) := by
+  refine ⟨_, rfl, by decide, by decide, by decide, by decide, by decide⟩
+
+/-- A save job that is dropped while it is still queued breaks convergence, both locks
+    notwithstanding: a pairing change submits its save, every worker of the pool is busy, the driver
+    stops and its pool is shut down with the queue discarded (`cancel 0`): every submitted job has
+    "finished", no change is in progress, and the file does not hold the change.  `C15_converge` therefore
+    asks for schedules without `cancel` (`Label.quiet`): the obligation on the stop path is to run, not
+    drop, what was submitted (`executor.shutdown()` waits for queued jobs; tied by the harness's
+    `lifecycle` stream, which judges the file after `start()` has returned). -/
+theorem C15_cancelled_save_counterexample :
+    ∃ s, exec true true demoSer (mutateL [0, 1] ++ [.cancel 0]) (initSys (some (demoSer [0, 0])) [0, 0])
+          = some s ∧
       quiescentB s = true ∧ s.chg = false ∧ s.mem = [1, 1] ∧ s.target = some (demoSer [0, 0]) ∧
       s.target ≠ some (demoSer s.mem) := by
   refine ⟨_, rfl, by decide, by decide, by decide, by decide, by decide⟩
